@@ -1153,6 +1153,11 @@ func (pid *PID) Ask(ctx context.Context, to *PID, message any, timeout time.Dura
 		err = errors.Join(ctx.Err(), gerrors.ErrRequestTimeout)
 		pid.handleReceivedErrorWithMessage(pid, message, err)
 		timers.Put(timer)
+		if !receiveContext.responseClosed.CompareAndSwap(false, true) {
+			// The responder already claimed the reply slot and may still be
+			// sending on the channel: it must not be handed to a later Ask.
+			return nil, err
+		}
 		receiveContext.responseClosed.Store(true)
 		putResponseChannel(responseCh)
 		return nil, err
@@ -1160,6 +1165,11 @@ func (pid *PID) Ask(ctx context.Context, to *PID, message any, timeout time.Dura
 		err = gerrors.ErrRequestTimeout
 		pid.handleReceivedErrorWithMessage(pid, message, err)
 		timers.Put(timer)
+		if !receiveContext.responseClosed.CompareAndSwap(false, true) {
+			// The responder already claimed the reply slot and may still be
+			// sending on the channel: it must not be handed to a later Ask.
+			return nil, err
+		}
 		receiveContext.responseClosed.Store(true)
 		putResponseChannel(responseCh)
 		return nil, err
